@@ -362,7 +362,8 @@ def c14(tier, seed, case=None):
             'for every n) x filler pattern {none, everywhere, random; zero bytes, random bytes, bytes that look like records} x 6 '
             'record types, header length covering the whole file, plus a .shx in logical order; the library reads it with the index '
             '(iteration, read_nth_shape for every i and two past the end, shape_count; iteration after a random access and after a partial '
-            'iteration + random access on the same reader; ShapeReader::from_path on the pair) and the dumps are compared with the model in '
+            'iteration + random access on the same reader; ShapeReader::from_path, shapefile::read_shapes and - with a table of n rows '
+            'written next to the pair - shapefile::read on the files) and the dumps are compared with the model in '
             'index order; the instrumented source counts the seeks. distinct = (type, permutation, filler pattern); non-trivial = all' % max_n,
             ['shpref.py encodes records correctly (cross-checked in C02/C03)'], exhaustive=True)
     gen_dir = os.path.join(OUT, 'C14', tier, 'gen')
